@@ -213,6 +213,9 @@ func (e *bndEngine) goalsFor(p *prover, ob bndOb) []bndGoal {
 		e.sliceLemmas(p, x)
 	case *ssa.MakeSlice:
 		add(p.lin(x.Len), "len >= 0")
+		if x.Cap != nil && x.Cap != x.Len {
+			add(p.lin(x.Cap).sub(p.lin(x.Len)), "cap >= len")
+		}
 	}
 	return goals
 }
@@ -842,6 +845,29 @@ func c03(c *Ctx) {
 		r.Check("lexEventBody:guard-found", n >= 1, eb.Pos(), fmt.Sprintf("%d arithmetic nodes over the declared lengths in guards", n))
 	})
 
+	c.Rule("C03.R4", "batches handed on are fully populated: every make([]*T, n) in the ingestion scope has each element stored with a fresh value on every path of a 0..n counted loop (the consumers dereference the elements unconditionally; nil dereferences are otherwise not enumerated)", 2, func(r *Rule) {
+		for _, fn := range scope {
+			eachInstr(fn, func(in ssa.Instruction) {
+				ms, ok := in.(*ssa.MakeSlice)
+				if !ok {
+					return
+				}
+				sl, ok := ms.Type().Underlying().(*types.Slice)
+				if !ok {
+					return
+				}
+				if _, isPtr := sl.Elem().Underlying().(*types.Pointer); !isPtr {
+					return
+				}
+				if n, isC := constInt(ms.Len); isC && n == 0 {
+					return
+				}
+				okp, detail := fullyPopulated(ms)
+				r.Check(FuncName(fn)+":populated:"+exprString(ms, 0), okp, ms.Pos(), detail)
+			})
+		}
+	})
+
 	c.Rule("C03.R3", "every request is answered with exactly one status and errors dispatch nothing (C14.R5)", 10, func(r *Rule) {
 		sub := &Ctx{W: w, Prop: c.Prop, Tier: c.Tier, known: c.known, Only: "C14.R5"}
 		c14(sub)
@@ -982,3 +1008,150 @@ func vtaExtend(w *World, scope []*ssa.Function, entries []string, stop func(*ssa
 }
 
 var _ = types.Typ
+
+// fullyPopulated: ms = make([]*T, n) must have every element stored with a fresh non-nil value before
+// the slice is used: the only element stores are s[i] = <alloc|call result> in a counted loop
+// (i from 0, step 1, bound n) and no path from the loop body's entry to the loop header or exit
+// avoids the store.
+func fullyPopulated(ms *ssa.MakeSlice) (bool, string) {
+	// aliases: the slice value itself and loads of a local cell it is (solely) stored into
+	aliases := []ssa.Value{ms}
+	for _, ref := range referrers(ms) {
+		if st, ok := ref.(*ssa.Store); ok && st.Val == ms {
+			if cell, ok := st.Addr.(*ssa.Alloc); ok {
+				n := 0
+				for _, r2 := range referrers(cell) {
+					if s2, ok := r2.(*ssa.Store); ok && s2.Addr == cell {
+						n++
+					}
+				}
+				if n != 1 {
+					return false, "the slice variable is reassigned"
+				}
+				for _, r2 := range referrers(cell) {
+					if ld, ok := r2.(*ssa.UnOp); ok && ld.Op == token.MUL {
+						aliases = append(aliases, ld)
+					}
+				}
+			}
+		}
+	}
+	var stores []*ssa.Store
+	var uses []ssa.Instruction
+	for _, a := range aliases {
+		for _, ref := range referrers(a) {
+			ia, ok := ref.(*ssa.IndexAddr)
+			if !ok {
+				if st, isSt := ref.(*ssa.Store); isSt && st.Val == a {
+					continue
+				}
+				uses = append(uses, ref)
+				continue
+			}
+			isStore := false
+			for _, r2 := range referrers(ia) {
+				if st, ok := r2.(*ssa.Store); ok && st.Addr == ia {
+					stores = append(stores, st)
+					isStore = true
+				}
+			}
+			if !isStore {
+				uses = append(uses, ia)
+			}
+		}
+	}
+	if len(stores) == 0 {
+		return false, "no element store found"
+	}
+	var populating *ssa.BasicBlock // exit block of the populating loop
+	var popStore *ssa.Store
+	why := ""
+	for _, st := range stores {
+		switch st.Val.(type) {
+		case *ssa.Alloc, *ssa.Call:
+		default:
+			return false, "stored element is not a fresh allocation or call result: " + exprString(st.Val, 0)
+		}
+		ia := st.Addr.(*ssa.IndexAddr)
+		phi, ok := ia.Index.(*ssa.Phi)
+		if !ok {
+			why = "element index is not a loop counter: " + exprString(ia.Index, 0)
+			continue
+		}
+		h := phi.Block()
+		ifi, ok := h.Instrs[len(h.Instrs)-1].(*ssa.If)
+		if !ok {
+			why = "loop header does not end in the bound test"
+			continue
+		}
+		cmp, ok := ifi.Cond.(*ssa.BinOp)
+		if !ok || cmp.Op != token.LSS || cmp.X != phi || !(cmp.Y == ms.Len || (pathOf(cmp.Y) != "" && pathOf(cmp.Y) == pathOf(ms.Len))) {
+			why = "loop bound is not i < len: " + exprString(ifi.Cond, 0)
+			continue
+		}
+		// init 0, step +1
+		okInit, okStep := false, false
+		for _, e := range phi.Edges {
+			if n, isC := constInt(e); isC && n == 0 {
+				okInit = true
+			} else if b, isB := e.(*ssa.BinOp); isB && b.Op == token.ADD && b.X == phi {
+				if n, isC := constInt(b.Y); isC && n == 1 {
+					okStep = true
+				}
+			}
+		}
+		if !okInit || !okStep {
+			why = "loop counter does not run 0,1,2,...: " + exprString(phi, 0)
+			continue
+		}
+		body, exit := h.Succs[0], h.Succs[1]
+		// search from body avoiding the store's block (a block is straight-line: entering it executes the store)
+		seen := map[*ssa.BasicBlock]bool{}
+		var stack []*ssa.BasicBlock
+		if body != st.Block() {
+			stack = append(stack, body)
+			seen[body] = true
+		}
+		bad := ""
+		for len(stack) > 0 && bad == "" {
+			b := stack[len(stack)-1]
+			stack = stack[:len(stack)-1]
+			if b == h || b == exit {
+				bad = fmt.Sprintf("a path through the loop body reaches block %d (%s) without storing element i", b.Index, map[bool]string{true: "next iteration", false: "loop exit"}[b == h])
+				break
+			}
+			for _, s := range b.Succs {
+				if s != st.Block() && !seen[s] {
+					seen[s] = true
+					stack = append(stack, s)
+				}
+			}
+		}
+		if bad != "" {
+			why = bad
+			continue
+		}
+		populating = exit
+		popStore = st
+	}
+	if populating == nil {
+		return false, "no loop stores every element 0..len-1 on all paths: " + why
+	}
+	// every other use of the slice comes after the populating loop
+	for _, u := range uses {
+		if ia, isIA := u.(*ssa.IndexAddr); isIA && ia.Index == popStore.Addr.(*ssa.IndexAddr).Index && instrDominates(popStore, u) {
+			continue // element i read back after it was stored in the same iteration
+		}
+		if u.Block() != populating && !populating.Dominates(u.Block()) {
+			return false, "the slice is used at " + exprString0(u) + " before (or not dominated by) the populating loop"
+		}
+	}
+	return true, fmt.Sprintf("%d element store(s) of fresh values; one 0..len counted loop stores element i on every path and dominates the %d other use(s)", len(stores), len(uses))
+}
+
+func exprString0(in ssa.Instruction) string {
+	if v, ok := in.(ssa.Value); ok {
+		return exprString(v, 0)
+	}
+	return in.String()
+}
